@@ -23,8 +23,9 @@ def run():
     fslookup.build_nowat()
     cli.artefacts("quick")
     cli.build_wac()
-    from . import types, agg
+    from . import types, agg, wac
     types.artefacts("quick")
     agg.artefacts("quick")
+    wac.artefacts("quick")
     log("[setup] done")
     return 0
